@@ -12,7 +12,7 @@ RTs == {"rt1", "rt2", "rt3"}
 Vrf(n, rd, l, i, e) == [name |-> n, rd |-> rd, label |-> l, imp |-> i, exp |-> e]
 V1a == Vrf("v1", "65000:101", 101, {"rt1", "rt2"}, {"rt1", "rt3"})
 V1b == Vrf("v1", "65000:101", 111, {"rt3"}, {"rt2"})
-V2a == Vrf("v2", "65000:102", 102, {"rt2", "rt3"}, {"rt2"})
+V2a == Vrf("v2", "65000:102", 102, {"rt2", "rt3"}, {"rt3"})      \* its routes are imported by v2 and V1b, not by V1a
 V2b == Vrf("v2", "65000:102", 112, {"rt1"}, {"rt1", "rt2", "rt3"})
 VrfPoolAll == {V1a, V1b, V2a, V2b}
 
